@@ -120,6 +120,14 @@ class DFIPhaseModel(Module):
 
 # DFI Timings Checker ------------------------------------------------------------------------------
 
+def _column_address(address):
+    # A10 carries the auto-precharge flag of READ/WRITE commands, it is not a column bit:
+    # the column address is A[9:0] followed by A[11:].
+    if len(address) > 11:
+        return Cat(address[:10], address[11:])
+    return address[:10]
+
+
 class SDRAMCMD:
     def __init__(self, name: str, enc: int, idx: int):
         self.name = name
@@ -629,7 +637,7 @@ class SDRAMPHYModel(Module):
                 self.comb += writes[np].eq(phase.write)
                 cases[2**np] = [
                     bank_write.eq(phase.bank == nb),
-                    bank_write_col.eq(phase.address)
+                    bank_write_col.eq(_column_address(phase.address))
                 ]
             self.comb += Case(writes, cases)
             self.comb += [
@@ -660,7 +668,7 @@ class SDRAMPHYModel(Module):
                 self.comb += reads[np].eq(phase.read)
                 cases[2**np] = [
                     bank.read.eq(phase.bank == nb),
-                    bank.read_col.eq(phase.address)
+                    bank.read_col.eq(_column_address(phase.address))
             ]
             self.comb += Case(reads, cases)
 
